@@ -152,9 +152,12 @@ public:
     record* entry=pop(data_list);
     if(!entry) //no cached memory available
       return(T());
-    push(free_list,entry);
+    //read the payload before the record goes back onto the free list: once it
+    //is there another thread may pop it and overwrite its data
     SQUIDS_VERIF_YIELD("get.read",entry,entry-entries);
-    return(*entry);
+    T result=entry->data;
+    push(free_list,entry);
+    return(result);
   }
 };
   
